@@ -65,6 +65,7 @@ type VC struct {
 	entry      *hstate
 	lemmaDone  map[string]bool
 	lemmaName  string
+	kindCtr    int
 	qf         int                // >0: quantifier-free candidate search with this length bound
 	notes      []string
 }
@@ -361,13 +362,19 @@ func (vc *VC) eltFn(srt string) string {
 	return fn
 }
 
+// nextKind numbers the derived-reference constructors; distinct constructors yield distinct references.
+func (vc *VC) nextKind() int {
+	vc.kindCtr++
+	return vc.kindCtr
+}
+
 func (vc *VC) declSubRef(st types.Type, i int) string {
 	fn := subRefFn(st, i)
 	if !vc.declared[fn] {
 		vc.declared[fn] = true
 		vc.emit(fmt.Sprintf("(declare-fun %s (Int) Int)", fn))
 		vc.emit(fmt.Sprintf("(declare-fun %s.inv (Int) Int)", fn))
-		vc.emit(fmt.Sprintf("(assert (forall ((r Int)) (! (and (= (%s.inv (%s r)) r) (< (%s r) 0) (= (root (%s r)) (root r))) :pattern ((%s r)))))", fn, fn, fn, fn, fn))
+		vc.emit(fmt.Sprintf("(assert (forall ((r Int)) (! (and (= (%s.inv (%s r)) r) (< (%s r) 0) (= (root (%s r)) (root r)) (= (rkind (%s r)) %d)) :pattern ((%s r)))))", fn, fn, fn, fn, fn, vc.nextKind(), fn))
 	}
 	return fn
 }
@@ -379,7 +386,7 @@ func (vc *VC) declElemRef(elem types.Type) string {
 		vc.emit(fmt.Sprintf("(declare-fun %s (Int Int) Int)", fn))
 		vc.emit(fmt.Sprintf("(declare-fun %s.arr (Int) Int)", fn))
 		vc.emit(fmt.Sprintf("(declare-fun %s.idx (Int) Int)", fn))
-		vc.emit(fmt.Sprintf("(assert (forall ((a Int) (i Int)) (! (and (= (%s.arr (%s a i)) a) (= (%s.idx (%s a i)) i) (< (%s a i) 0) (= (root (%s a i)) a)) :pattern ((%s a i)))))", fn, fn, fn, fn, fn, fn, fn))
+		vc.emit(fmt.Sprintf("(assert (forall ((a Int) (i Int)) (! (and (= (%s.arr (%s a i)) a) (= (%s.idx (%s a i)) i) (< (%s a i) 0) (= (root (%s a i)) a) (= (rkind (%s a i)) %d)) :pattern ((%s a i)))))", fn, fn, fn, fn, fn, fn, fn, vc.nextKind(), fn))
 	}
 	return fn
 }
